@@ -46,7 +46,7 @@ macro_rules! impl_from_slice_conversions {
                     let len = slice.len();
                     if len % $N == 0 {
                         let new_len = len / $N;
-                        let ptr = slice.as_ptr() as *mut _;
+                        let ptr = slice.as_mut_ptr() as *mut _;
                         let new_slice = unsafe {
                             core::slice::from_raw_parts_mut(ptr, new_len)
                         };
@@ -78,7 +78,7 @@ macro_rules! impl_from_slice_conversions {
                 #[inline]
                 fn from_frame_slice_mut(slice: &'a mut [[S; $N]]) -> Self {
                     let new_len = slice.len() * $N;
-                    let ptr = slice.as_ptr() as *mut _;
+                    let ptr = slice.as_mut_ptr() as *mut _;
                     unsafe {
                         core::slice::from_raw_parts_mut(ptr, new_len)
                     }
